@@ -490,7 +490,9 @@ def check_C14(work, prop, tier, seed, t0):
     # sequences whose bounds / prefix live in buffers the caller reuses between creation, passes and lookups
     stages.append(Stage("arena", "alpha/bytes", "range", "q", bat, n=(3 if q else 10), len=(40 if q else 90)))
     stages.append(Stage("arena", "collation/bytes/und", "text", "q", bat, n=(2 if q else 8), len=(40 if q else 90)))
-    return tree_check(work, prop, tier, seed, t0, stages, PROP_INVS[prop], ["ReiterOK", "TopBottomOK"], RULE_TREE, model_props=[])
+    import venv
+    return tree_check(work, prop, tier, seed, t0, stages, PROP_INVS[prop], ["ReiterOK", "TopBottomOK"], RULE_TREE, model_props=[],
+                      extra_cov={"iteration_protocol_model": venv.iter_model(work)})
 
 
 def check_C15(work, prop, tier, seed, t0):
